@@ -61,7 +61,12 @@ TCopy  == /\ IsEvent("Copy")
           /\ pf' = [pf EXCEPT ![Log[l].dst] = pf[Log[l].src]]
           /\ UNCHANGED n
 
-Next == TReset \/ TLocate \/ TQuery \/ TSetPf \/ TMul \/ TCopy
+\* an argument outside the domain by more than the tolerance, asked of a used object (in a child process): it stops with a diagnostic
+\* whatever the history was -- and the object itself is not affected
+TOutside == /\ IsEvent("Outside")
+            /\ ~Log[l].ret /\ Log[l].diag /\ ~Log[l].mem
+            /\ UNCHANGED <<pf, n>>
+Next == TReset \/ TLocate \/ TQuery \/ TSetPf \/ TMul \/ TCopy \/ TOutside
 Spec == Init /\ [][Next]_vars
 
 TraceAccepted == TLCGet("stats").diameter - 1 = Len(Log)
